@@ -1041,6 +1041,7 @@ def check(reg, tier):
     # which resolution object a 1-D data set gets (zero widths among positive ones must still be smeared)
     from contracts import interp_data
     interp_data.contract(reg, PROP, {"resolution"})
+    interp_data.contract_oriented(reg, PROP)
     reg.assume("erf, exp and sqrt are uninterpreted with the monotonicity / inverse facts instantiated where used; doubles are "
                "reals; sqrt(2.0) is the float constant")
     reg.assume("conclusions about sums (weights sum to one, flat intensity unchanged, scale and background pass through "
